@@ -191,6 +191,14 @@ func (l *Loaded) verifyFunc(r *Runner, fn *ssa.Function, sp *FuncSpec) (res *FnR
 	if len(fn.Blocks) == 0 {
 		panic(unsupported("function has no body"))
 	}
+	// a loop contract must name a loop that exists (a removed loop takes its invariants with it: stale contract)
+	if n := len(r.loops(fn).headers); true {
+		for ord := range sp.Loops {
+			if ord >= n {
+				panic(specErr{fmt.Sprintf("contract has clauses for loop %d but the function has %d loop(s)", ord, n)})
+			}
+		}
+	}
 	if fn.Recover != nil && !sp.PanicOK {
 		r.note("function has a recover block; panicking paths are not followed")
 	}
